@@ -213,7 +213,7 @@ type c15Walker struct {
 
 func (w *c15Walker) emit(kind, arg string, exit bool) {
 	arg2 := ""
-	if kind == "rd" || kind == "wr" || kind == "callcb" {
+	if kind == "rd" || kind == "wr" || kind == "mrd" || kind == "mwr" || kind == "callcb" {
 		sep := "."
 		if kind == "callcb" {
 			sep = "|"
@@ -221,7 +221,7 @@ func (w *c15Walker) emit(kind, arg string, exit bool) {
 		p := strings.SplitN(arg, sep, 2)
 		arg, arg2 = p[0], p[1]
 	}
-	if kind == "rd" || kind == "wr" {
+	if kind == "rd" || kind == "wr" || kind == "mrd" || kind == "mwr" {
 		// drop immediate repetitions
 		if n := len(w.fn.evs); n > 0 && w.fn.evs[n-1] == (c15Ev{kind, arg, arg2, exit}) {
 			return
@@ -515,6 +515,16 @@ func (w *c15Walker) expr(e ast.Expr, exit bool) {
 		if name == "workSheetReader" && len(x.Args) == 1 {
 			c15WsArgs[w.fn.key] = append(c15WsArgs[w.fn.key], src(x.Args[0]))
 		}
+		if sel, ok := recvX.(*ast.SelectorExpr); ok && c15ExprClass(w.fn, sel.X) == "File" && c15SyncMaps()[sel.Sel.Name] {
+			// every operation on a sync.Map field of File, tagged with the function it occurs in:
+			// the raw material of the check-then-act table (Load ... Store on the same map)
+			switch name {
+			case "Store", "Delete", "LoadOrStore", "LoadAndDelete", "Swap", "CompareAndSwap":
+				w.emit("mwr", "SyncMap:"+sel.Sel.Name+"."+w.fn.key, exit)
+			case "Load", "Range":
+				w.emit("mrd", "SyncMap:"+sel.Sel.Name+"."+w.fn.key, exit)
+			}
+		}
 		if sel, ok := recvX.(*ast.SelectorExpr); ok && c15ExprClass(w.fn, sel.X) == "File" {
 			// hand-assigned footprint: a part list kept in a sync.Map of File (check-then-act on it
 			// needs a lock although every single map operation is atomic)
@@ -656,6 +666,47 @@ var c15Stop = map[string]bool{"CalcCellValue": true, "calcCellValue": true, "get
 // one kind (xl/media/imageN.*, xl/drawings/drawingN.xml) form a list whose next free number is
 // computed by scanning it; the functions that scan and extend such a list are named here
 // (sync.Map operations elsewhere are treated as atomic and not tracked).
+var c15SyncMapSet map[string]bool
+
+// c15SyncMaps: the fields of struct File whose type is sync.Map
+func c15SyncMaps() map[string]bool {
+	if c15SyncMapSet != nil {
+		return c15SyncMapSet
+	}
+	c15SyncMapSet = map[string]bool{}
+	for _, f := range files {
+		for _, d := range f.Decls {
+			gd, ok := d.(*ast.GenDecl)
+			if !ok {
+				continue
+			}
+			for _, sp := range gd.Specs {
+				ts, ok := sp.(*ast.TypeSpec)
+				if !ok || ts.Name.Name != "File" {
+					continue
+				}
+				st, ok := ts.Type.(*ast.StructType)
+				if !ok {
+					continue
+				}
+				for _, fld := range st.Fields.List {
+					if se, ok := fld.Type.(*ast.SelectorExpr); ok && se.Sel.Name == "Map" {
+						if id, ok := se.X.(*ast.Ident); ok && id.Name == "sync" {
+							for _, n := range fld.Names {
+								c15SyncMapSet[n.Name] = true
+							}
+						}
+					}
+				}
+			}
+		}
+	}
+	if len(c15SyncMapSet) == 0 {
+		fail("no sync.Map field found in struct File")
+	}
+	return c15SyncMapSet
+}
+
 // c15WsArgs: function -> source text of the argument of each workSheetReader call in its body
 var c15WsArgs = map[string][]string{}
 
@@ -756,29 +807,40 @@ func init() {
 			}
 			return r
 		}
-		matters := map[string]bool{}
-		for k, fn := range c15All {
-			for _, e := range fn.evs {
-				if e.kind == "lock" || e.kind == "unlock" || e.kind == "defer" || e.kind == "rd" || e.kind == "wr" {
-					matters[k] = true
-				}
-			}
-		}
-		for changed := true; changed; {
-			changed = false
+		closure := func(base func(e c15Ev) bool) map[string]bool {
+			m := map[string]bool{}
 			for k, fn := range c15All {
-				if matters[k] {
-					continue
-				}
-				for _, c := range callees(fn) {
-					if matters[c] {
-						matters[k] = true
-						changed = true
-						break
+				for _, e := range fn.evs {
+					if base(e) {
+						m[k] = true
 					}
 				}
 			}
+			for changed := true; changed; {
+				changed = false
+				for k, fn := range c15All {
+					if m[k] {
+						continue
+					}
+					for _, c := range callees(fn) {
+						if m[c] {
+							m[k] = true
+							changed = true
+							break
+						}
+					}
+				}
+			}
+			return m
 		}
+		// mattersLock: relevant for the lock / guard analysis; matters: additionally everything that
+		// performs sync.Map operations (only inlined in the check-then-act analysis: kind "mcall")
+		mattersLock := closure(func(e c15Ev) bool {
+			return e.kind == "lock" || e.kind == "unlock" || e.kind == "defer" || e.kind == "rd" || e.kind == "wr"
+		})
+		matters := closure(func(e c15Ev) bool {
+			return e.kind == "lock" || e.kind == "unlock" || e.kind == "defer" || e.kind == "rd" || e.kind == "wr" || e.kind == "mrd" || e.kind == "mwr"
+		})
 		// 4. reachable from the documented functions
 		depth := map[string]int{}
 		queue := append([]string{}, documented...)
@@ -843,10 +905,34 @@ func init() {
 					out.WriteString(",")
 				}
 				first = false
-				fmt.Fprintf(out, "\n  (%s, %s, %s, %v)", leanStr(e.kind), leanStr(e.arg), leanStr(e.arg2), e.exit)
+				kind := e.kind
+				if kind == "call" && !mattersLock[e.arg] {
+					kind = "mcall" // matters only for its sync.Map operations
+				}
+				fmt.Fprintf(out, "\n  (%s, %s, %s, %v)", leanStr(kind), leanStr(e.arg), leanStr(e.arg2), e.exit)
 			}
 			out.WriteString("]\n")
 		}
+		var sm []string
+		for k := range c15SyncMaps() {
+			sm = append(sm, k)
+		}
+		sort.Strings(sm)
+		out.WriteString("\n/-! fields of struct File that are sync.Map -/\ndef syncMaps : List String := [")
+		for i, k := range sm {
+			if i > 0 {
+				out.WriteString(", ")
+			}
+			out.WriteString(leanStr(k))
+		}
+		out.WriteString("]\ndef syncMapClasses : List String := [")
+		for i, k := range sm {
+			if i > 0 {
+				out.WriteString(", ")
+			}
+			out.WriteString(leanStr("SyncMap:" + k))
+		}
+		out.WriteString("]\n")
 		out.WriteString("\n/-! which worksheet a function loads: argument text of every workSheetReader call -/\ndef wsArgs : List (String × List String) := [")
 		firstWs := true
 		for _, k := range followed {
